@@ -1019,6 +1019,41 @@ def _rel(a, pre):
     raise ValueError(m)
 
 
+@op("iv_arith")
+def _iv_arith(a, pre):
+    """an Interval used as a duration: arithmetic delegates to as_duration(), totals by truncation"""
+    p = P()
+    x, y = pre
+    iv = p.Interval(x, y, absolute=a["abs"])
+    o = a["o"]
+    td = _dt.timedelta(days=a.get("d", 0), seconds=a.get("s", 0), microseconds=a.get("us", 0))
+    if o == "as_duration":
+        return iv.as_duration()
+    if o == "neg":
+        return -iv
+    if o == "abs":
+        return abs(iv)
+    if o == "mul_int":
+        return iv * a["n"]
+    if o == "rmul_int":
+        return a["n"] * iv
+    if o == "floordiv_int":
+        return iv // a["n"]
+    if o == "truediv_int":
+        return iv / a["n"]
+    if o == "add_td":
+        return iv + td
+    if o == "radd_td":
+        return td + iv
+    if o == "sub_td":
+        return iv - td
+    if o == "totals":
+        return {"k": "totals", "ind": proj.sm(iv.in_days()), "inw": proj.sm(iv.in_weeks()), "iny": proj.sm(iv.in_years()),
+                "years": int(iv.years), "eq_td": bool(iv == iv.as_timedelta()), "eq_dur": bool(iv == iv.as_duration()),
+                "ts": proj.f2d3(iv.total_seconds())}
+    raise ValueError(o)
+
+
 @op("iv_comp")
 def _iv_comp(a, pre):
     p = P()
